@@ -50,8 +50,9 @@ def memSet (m : Mem) (d : Nat) (c : UInt8) (n : Nat) : Mem :=
 /-- one pass of the rotation loop of `memJoin`:
     `o = dest[0]; memMove(dest, dest + 1, n - 1); dest[n - 1] = o;` -/
 def rotl1 (m : Mem) (dest n : Nat) : Mem :=
-  let o := m dest
-  set1 (memMove m dest (dest + 1) (n - 1)) (dest + n - 1) o
+  -- `o` is the OLD first octet; written functionally (the value is looked up only when the last
+  -- octet is read) so that the compiled driver does not re-evaluate it at every nesting level
+  fun x => if x = dest + n - 1 then m dest else memMove m dest (dest + 1) (n - 1) x
 
 /-- `for (i = 0; i < k; ++i) <rotl1>` -/
 def rotLoop (dest n : Nat) : Nat → Mem → Mem
